@@ -8,6 +8,7 @@ import (
 	"os"
 	"os/exec"
 	"path/filepath"
+	"sort"
 	"strconv"
 	"strings"
 
@@ -20,7 +21,8 @@ import (
 // generated client stubs with literal typed values. All driver packages of a run are linked into ONE program;
 // it talks to real `varlink.Service`s over abstract unix sockets through a recording proxy.
 //
-//   stub <idl> <scenario> x<method> <flags> <nin> <val>*nin <nreplies> (<kind> …)* | <observations>
+//   stubs <idl> <k> (<scenario> x<method> <flags> <nin> <val>*nin <scenario data> | <observations>)*k   one line per description
+//   stubskip <why> | stubbuild <idl> | x<message>
 //
 // scenarios: reply | error | notimpl | unknown | badparams
 
@@ -210,7 +212,7 @@ func (d *stubDesc) badValueForN(t *idl.Type, g *Rng, n int) string {
 
 func (c *stubCase) line() string {
 	l := &Line{}
-	l.S("stub").S(c.desc.treeLine).S(c.scenario).Str(c.method.Name).N(c.flags)
+	l.S(c.scenario).Str(c.method.Name).N(c.flags)
 	l.N(len(c.ins))
 	for _, v := range c.ins {
 		v.ser(l)
@@ -514,7 +516,7 @@ func (d *stubDesc) driverSource() string {
 			fmt.Fprintf(&body, "\t\tim.on = func(ctx context.Context, method string, args []interface{}, call g.VarlinkCall) error {\n\t\t\trec.Call(method, args, call.WantsMore(), call.IsOneway(), call.WantsUpgrade())\n\t\t\treturn call.Reply%s(ctx%s)\n\t\t}\n", m.Name, args)
 			fmt.Fprintf(&body, "\t\trt.Raw(%s.Addr, %q)\n", svc, c.rawFrame)
 		case "unknown", "badparams":
-			fmt.Fprintf(&body, "\t\tim.on = func(ctx context.Context, method string, args []interface{}, call g.VarlinkCall) error {\n\t\t\trec.Call(method, args, call.WantsMore(), call.IsOneway(), call.WantsUpgrade())\n\t\t\treturn call.ReplyInvalidParameter(ctx, \"unexpected-dispatch\")\n\t\t}\n")
+			fmt.Fprintf(&body, "\t\tim.on = func(ctx context.Context, method string, args []interface{}, call g.VarlinkCall) error {\n\t\t\trec.Call(method, args, call.WantsMore(), call.IsOneway(), call.WantsUpgrade())\n\t\t\treturn call.Call.ReplyInvalidParameter(ctx, \"unexpected-dispatch\")\n\t\t}\n")
 			fmt.Fprintf(&body, "\t\trt.Raw(%s.Addr, %q)\n", svc, c.rawFrame)
 		default:
 			// what the implementation does
@@ -606,13 +608,14 @@ func runStub(e *env) error {
 	perDesc := 6
 	// descriptions: random in-domain ones plus the type-at-position table
 	var descs []*stubDesc
+	lines := map[int]string{}
 	caseIdx := 0
 	err = e.each(func(i int, g *Rng) error {
 		var dc descCase
 		sys := genSystematicCases()
 		if i%3 == 0 {
-			// a systematic case (types at positions, keyword fields, …), chosen by the case's own generator
-			dc = sys[g.Intn(len(sys))]
+			// the systematic cases (specials, types at positions, keyword fields, …) in table order
+			dc = sys[(i/3)%len(sys)]
 		} else {
 			dc = g.randomDescription()
 		}
@@ -621,6 +624,7 @@ func runStub(e *env) error {
 		}
 		tree, _, _ := parseReal(dc.text)
 		if tree == nil {
+			lines[i] = (&Line{}).S("stubskip").S("parse-error").String()
 			return nil
 		}
 		d := &stubDesc{idx: i, dc: dc, tree: tree}
@@ -630,10 +634,12 @@ func runStub(e *env) error {
 		st, _, outFile, out := ge.runReal(filepath.Join(ge.work, fmt.Sprintf("s%d", i)), dc.text)
 		os.RemoveAll(filepath.Join(ge.work, fmt.Sprintf("s%d", i)))
 		if st != "ok" {
+			lines[i] = (&Line{}).S("stubskip").S("generator-" + st).String()
 			return nil
 		}
 		d.pkg = strings.TrimSuffix(outFile, ".go")
 		if d.pkg == "main" {
+			lines[i] = (&Line{}).S("stubskip").S("package-main").String()
 			return nil
 		}
 		d.src = out
@@ -691,7 +697,7 @@ func runStub(e *env) error {
 		if msg, isBad := bad[d.idx]; isBad {
 			// a driver that does not build against a generated package that compiles is a harness defect or a
 			// violation (the emitted API does not have the documented shape): report it
-			fmt.Fprintln(e.out, (&Line{}).S("stubbuild").S(d.treeLine).S("|").Str(msg).String())
+			lines[d.idx] = (&Line{}).S("stubbuild").S(d.treeLine).S("|").Str(msg).String()
 			continue
 		}
 		good = append(good, d)
@@ -737,15 +743,27 @@ func runStub(e *env) error {
 			}
 		}
 		for _, d := range good {
+			l := &Line{}
+			l.S("stubs").S(d.treeLine).N(len(d.cases))
 			for _, c := range d.cases {
 				o, ok := obs[c.idx]
 				if !ok {
 					o = "MISSING"
 				}
 				c.obs = o
-				fmt.Fprintln(e.out, c.line())
+				l.S(c.line())
 			}
+			lines[d.idx] = l.String()
 		}
+	}
+	// exactly one line per case index of the run, in order (so that `-only i` replays line i)
+	var idxs []int
+	for i := range lines {
+		idxs = append(idxs, i)
+	}
+	sort.Ints(idxs)
+	for _, i := range idxs {
+		fmt.Fprintln(e.out, lines[i])
 	}
 	return nil
 }
